@@ -109,7 +109,7 @@ func newProbeSess() (*psess, error) {
 }
 
 // how the streams get closed; every one goes through the real exported API
-var probeStates = []string{"open", "Close", "Close+Close", "Serve+peerClose", "Serve+handlerErr", "Serve+handlerStreamErr", "Serve+deadline", "Close+Serve+peerClose", "Close+Serve+handlerErr"}
+var probeStates = []string{"open", "Close", "Close+Close", "Serve+peerClose", "Serve+handlerErr", "Serve+handlerStreamErr", "Serve+deadline", "Close+Serve+peerClose", "Close+Serve+handlerErr", "Abandon+Close"}
 
 func (p *psess) serveUntil(peerBytes string, handlerErr error, deadline bool) error {
 	ret := make(chan error, 1)
@@ -156,6 +156,14 @@ func (p *psess) enter(state string) error {
 		return p.s.Close()
 	case "Close+Close":
 		p.s.Close()
+		return p.s.Close()
+	case "Abandon+Close":
+		// a transmit call whose payload reader fails after the start tokens (the element is
+		// abandoned half written), then Close: the stream is closed, whatever else is wrong with it
+		payload := xmlstream.ReaderFunc(func() (xml.Token, error) { return nil, errBoom })
+		if err := p.s.Send(context.Background(), stanza.Message{ID: "ab", Type: stanza.ChatMessage}.Wrap(payload)); err == nil {
+			return fmt.Errorf("the abandoned Send did not fail")
+		}
 		return p.s.Close()
 	case "Serve+peerClose":
 		return p.serveUntil(closeTag, nil, false)
@@ -370,7 +378,7 @@ func closeWriteCell(way string) (seen, bitSet, stateReadable, outLocked bool, ta
 	return
 }
 
-var closeWays = []string{"Close", "Close+Close", "Serve+peerClose", "Serve+handlerErr", "Serve+handlerStreamErr", "Serve+deadline", "Close+Serve+peerClose", "Close+Serve+handlerErr"}
+var closeWays = []string{"Close", "Close+Close", "Serve+peerClose", "Serve+handlerErr", "Serve+handlerStreamErr", "Serve+deadline", "Close+Serve+peerClose", "Close+Serve+handlerErr", "Abandon+Close"}
 
 func probeFacts(sb *strings.Builder) {
 	entries := probeEntries()
@@ -422,4 +430,5 @@ func probeFacts(sb *strings.Builder) {
 	framingProbeFacts(sb)
 	exportedMethodsFacts(sb)
 	setterFacts(sb)
+	queuedFacts(sb)
 }
